@@ -387,11 +387,18 @@ class NetworkService(ModelElement):
 
         # check uniqueness
         all_names = [n.name for n in self._interfaces]
+        # also look at the model itself: this handle's list may be out of date if the service
+        # was changed through another handle
+        for cp_id in self.topo.graph_model.get_all_ns_or_link_connection_points(link_id=self.node_id):
+            _, cp_props = self.topo.graph_model.get_node_properties(node_id=cp_id)
+            all_names.append(cp_props.get(ABCPropertyGraph.PROP_NAME))
         if name in all_names:
             raise TopologyException(f'Interface {name} is not unique within a network service')
         iff = Interface(name=name, node_id=node_id, parent_node_id=self.node_id,
                         etype=ElementType.NEW, topo=self.topo, itype=itype,
                         **kwargs)
+        # keep this handle's list current, the uniqueness check above relies on it
+        self._interfaces.append(iff)
         return iff
 
     def remove_interface(self, *, name: str) -> None:
@@ -422,13 +429,11 @@ class NetworkService(ModelElement):
         except Exception:
             # don't leave our half of the peering behind
             self.topo.graph_model.remove_cp_and_links(node_id=self_iface.node_id)
+            self._interfaces = list(filter((lambda x: x.node_id != self_iface.node_id), self._interfaces))
             raise
         # link them together with L2Path
         peer_link = Link(name=self_iface.name + '-link', topo=self.topo, etype=ElementType.NEW,
                          interfaces=[self_iface, other_iface], ltype=LinkType.L2Path)
-        # update interface lists
-        self._interfaces.append(self_iface)
-        ns._interfaces.append(other_iface)
 
     def unpeer(self, ns) -> None:
         """
